@@ -1,6 +1,6 @@
 """C19 - port discovery picks only EiBotBoards, in enumeration order, and finds by name.
 
-All ordered lists of 0..3 (thorough 4) enumerated ports over a 10-descriptor alphabet x
+All ordered lists of 0..4 (thorough 5) enumerated ports over a 13-descriptor alphabet x
 lookup names derived from the list itself (every reported name, serial tag and port name in
 three casings), through both layers with the enumerator replaced by a stub.
 """
@@ -24,6 +24,10 @@ DESCRIPTORS = [
     ("/dev/ttyUSB1", "East Coast Widget (COM9)", "USB VID:PID=1234:5678 SER=Widget7"),
     ("/dev/cu.usbmodem2", "EiBotBoard,Eastern", VIDPID + " SER=Eastern LOCATION=20-3"),
     ("/dev/CU.USBMODEM9", "EiBotBoard,West", VIDPID + " SER=West LOCATION=20-4"),
+    # names with a blank in them (the nickname may hold any text up to 16 characters)
+    ("/dev/ttyACM5", "EiBotBoard", VIDPID + " SER=North Rig LOCATION=1-5"),
+    ("COM7", "USB Serial Device (COM7)", VIDPID + " SER=South Rig LOCATION=1-6"),
+    ("/dev/cu.usbmodem5", "EiBotBoard,Big Bot", VIDPID + " SER=Big Bot LOCATION=20-5"),
 ]
 
 
@@ -47,7 +51,7 @@ def ref_first(ports):
 
 
 def serial_tag(port, legacy):
-    match = re.search(r"SER=(\S+)", port[2])
+    match = re.search(r"SER=(.+?) LOCATION", port[2]) or re.search(r"SER=(\S+)", port[2])
     if match:
         return match.group(1)
     if legacy:
@@ -222,7 +226,7 @@ def _chunk(args):
             break
     if firsts and length:
         part.sample({"ports": [list(DESCRIPTORS[firsts[0]])] +
-                     [list(DESCRIPTORS[(firsts[0] + 3) % 10])] * (length - 1)}, limit=1)
+                     [list(DESCRIPTORS[(firsts[0] + 3) % len(DESCRIPTORS)])] * (length - 1)}, limit=1)
     return part
 
 
@@ -230,7 +234,7 @@ def run(ctx):
     max_len = ctx.pick(4, 5)
     jobs = [([0], 0)]
     for length in range(1, max_len + 1):
-        for chunk in core.split(range(len(DESCRIPTORS)), 10):
+        for chunk in core.split(range(len(DESCRIPTORS)), len(DESCRIPTORS)):
             jobs.append((chunk, length))
     part = core.fan_out(ctx, _chunk, jobs)
     for clause, msg, _l in check_raising():
@@ -250,9 +254,9 @@ def run(ctx):
         "traces_validated_against_impl": cnt.get("calls", 0),
         "evaluations": cnt.get("calls", 0),
         "distinct_nontrivial": cnt.get("nontrivial", 0),
-        "rule": f"all ordered port lists of length 0..{max_len} over 10 descriptor kinds (named / "
+        "rule": f"all ordered port lists of length 0..{max_len} over {len(DESCRIPTORS)} descriptor kinds (named / "
                 "unnamed EBB, Windows SER=/SNR= styles, VID:PID-only, foreign devices, a name "
-                "that prefixes another) x every lookup derived from the list (reported names, "
+                "that prefixes another, names and tags containing a blank) x every lookup derived from the list (reported names, "
                 "serial tags, port names; original/upper/lower case), both layers; non-trivial = "
                 "lists of >= 2 ports containing a board",
         "samples": core.rotate(part.samples, ctx.seed, 4),
